@@ -854,6 +854,14 @@ def c17(ctx: Ctx) -> None:
                   'stop requested thread-safely, then the worker is joined', 'loop.stop() is called from the foreign thread, or the stopper returns before the loop has stopped',
                   witness=render(g4, w or w2), construct=construct_key(stopper.qualname, 'stop protocol'))
     ctx.extra['run_sites'] = n_run
+    # ... and the loop is actually run there: the worker handed to the pool by loop_in_thread reaches run_forever() on its
+    # parameter on some path (without it the spin `while not loop.is_running()` never ends, or ends for another runner)
+    gl_ = build(lit, p, expand_deferred=True)
+    rf_ = [n for n in gl_.nodes if n.kind == 'call' and n.meta.get('deferred') and isinstance(n.ast.func, ast.Attribute) and n.ast.func.attr == 'run_forever'
+           and norm(unalias(gl_, n, n.ast.func.value)) == lp]
+    ctx.check('C17-R5', f'loop_in_thread: the worker runs the loop ({len(rf_)} run_forever site(s))', f'{A}:{lit.lineno}', bool(rf_),
+              'the given loop is run in the worker thread', 'the function handed to the pool never runs the loop: loop_in_thread() waits for a loop nobody starts',
+              construct=construct_key('loop_in_thread', 'worker does not run the loop'))
 
 
 # ---------------------------------------------------------------------------
@@ -1638,6 +1646,12 @@ def c19(ctx: Ctx) -> None:
         n.ast.func.id == (tryp_param or parse_p) or n.ast.func.id in parser_loop_vars)]
     xp = tryp.params[0]
     # R4
+    if not pcalls:
+        # (the call exists in the text - that is how the guarded parser was found - but no path reaches it: a test that is
+        # constantly false, a return placed in front of it)
+        ctx.violation('C19-R4', f'{tryp.name}: the parser call is unreachable', f'{PA}:{tryp.lineno}',
+                      'no path through the guarded parser reaches the call of the parser: strings are never parsed, every value stays raw text',
+                      construct=construct_key('parse_to_dict', 'parser call unreachable'))
     for pc in pcalls:
         isb = [n for n in gt.nodes if n.kind == 'branch' and norm(n.meta['test']) == f'isinstance({xp}, str)']
         w = find_path(gt, [gt.entry], [pc], edge_ok=lambda e: not (e.src in isb and e.label == 'true'))
